@@ -10,12 +10,15 @@ where
 {
     fn clone(&self) -> Self {
         let mut m = Self::new();
-        m.len = self.len;
+        // count a pair only once it is written: if a `clone()` panics, dropping
+        // the partial copy must not touch the slots that are still uninitialised
+        let len = &mut m.len;
         m.pairs
             .iter_mut()
             .zip(self.pairs[..self.len].iter())
             .for_each(|(dst, src)| unsafe {
                 dst.write(src.assume_init_ref().clone());
+                *len += 1;
             });
         m
     }
